@@ -15,7 +15,7 @@ EXH_KINDS = ["ode", "statio1", "statio2", "nonstatio", "obs", "param", "obsmulti
 _PAIRS = [(n, b) for n in range(1, NMAX_EXH + 1) for b in range(1, n + 1)]
 N_EXH = len(_PAIRS) * len(EXH_KINDS)
 
-TIERS = {"quick": N_EXH + 300, "thorough": N_EXH + 24000}
+TIERS = {"quick": N_EXH + 300, "thorough": N_EXH + 12000}
 
 RULE = (
     "runs 0..%d enumerate exhaustively every (n, b) with 1<=b<=n<=%d for every generator kind "
